@@ -38,9 +38,10 @@ def cfg_trace(ctx):
     return "SPECIFICATION TraceSpec\nCONSTANTS\n%s\nINVARIANT PrintEnd\nCHECK_DEADLOCK FALSE\n" % consts(ctx, '{"t1", "t2", "t3"}')
 
 
-def scenario(sid, present, crit, event, outcome, verdict, early=False, lose=None, lost_before=None):
+def scenario(sid, present, crit, event, outcome, verdict, early=False, lose=None, lost_before=None, dead=()):
     """early: ok answers are on their way before the MESSAGE call returns; lose = (kind, task): that task's executor/agent is
-    reported lost (Mesos FAILURE event) once the command under test has reached it."""
+    reported lost (Mesos FAILURE event) once the command under test has reached it; dead = non-critical tasks that have
+    failed (TASK_FAILED, status INACTIVE) before the request under test arrives: they are no targets any more."""
     tasks = []
     files = {}
     roles = ""
@@ -49,7 +50,7 @@ def scenario(sid, present, crit, event, outcome, verdict, early=False, lose=None
         cls = "c02s%d%s" % (sid, t)
         files["tasks/%s.yaml" % cls] = cs.task_class(cls)
         roles += cs.role_task(t, cls, critical=crit[t])
-        tasks.append({"id": t, "class": cls, "crit": crit[t], "outcome": outcome[t]})
+        tasks.append({"id": t, "class": cls, "crit": crit[t], "outcome": outcome[t], "dead": t in dead})
         if outcome[t] == "ok" and early and event != "DEPLOY":
             scripts.append({"class": cls, "event": event, "outcome": "ok_early"})
         if lost_before and t == lost_before[1]:
@@ -67,7 +68,18 @@ def scenario(sid, present, crit, event, outcome, verdict, early=False, lose=None
     slow = any(t["outcome"] == "silent" for t in tasks) and event != "DEPLOY"   # costs the code's real 90 s response timeout
     steps = [{"do": "create", "env": "e1", "wf": wf, "timeout_ms": 4000 if hung else (15000 if event == "DEPLOY" else 0)}]
     model = {"tasks": tasks, "event": event, "call": "create" if event in ("CONFIGURE", "DEPLOY") else "control", "op": OPS.get(event, "")}
-    if event not in ("CONFIGURE", "DEPLOY"):
+    if dead:
+        # the environment exists (CONFIGURED); bring it to the source state of the event, let the tasks die, then ask
+        pre = {"CONFIGURE": ["RESET"], "STOP": ["START_ACTIVITY"]}.get(event, [])
+        for op in pre:
+            steps.append({"do": "control", "env": "e1", "op": op})
+        for t in sorted(dead):
+            steps += [{"do": "fault", "kind": "TASK_FAILED", "class": "c02s%d%s" % (sid, t)},
+                      {"do": "waitstatus", "class": "c02s%d%s" % (sid, t), "kind": "INACTIVE", "timeout_ms": 5000}]
+        model["call"] = "control"
+        model["op"] = {"CONFIGURE": "CONFIGURE"}.get(event, OPS.get(event, ""))
+        steps.append({"do": "control", "env": "e1", "op": model["op"]})
+    elif event not in ("CONFIGURE", "DEPLOY"):
         if event == "STOP":
             # the START that precedes the STOP under test must not be disturbed by the scripts (event-specific)
             steps.append({"do": "control", "env": "e1", "op": "START_ACTIVITY"})
@@ -137,6 +149,11 @@ def run(ctx):
         for ev in (("START", "STOP") if quick else ("START", "STOP", "RESET")):
             sid += 1
             scenarios.append(scenario(sid, ["t1", "t2"], {"t1": True, "t2": True}, ev, {"t1": "unsendable", "t2": "ok"}, "fail", lost_before=(kind, "t1")))
+    # non-critical tasks that died before the request: they are not commanded; with none left there is nothing to command
+    for (cr, dd) in [({"t1": False, "t2": False}, ("t1",)), ({"t1": False, "t2": False}, ("t1", "t2")), ({"t1": True, "t2": False}, ("t2",))]:
+        for ev in ("CONFIGURE", "START", "STOP", "RESET"):
+            sid += 1
+            scenarios.append(scenario(sid, ["t1", "t2"], cr, ev, {"t1": "ok", "t2": "ok"}, "ok", dead=dd))
     # timing variant: the acknowledgements overtake the return of the send call
     for ev in ("CONFIGURE", "START", "STOP", "RESET"):
         for out in ({"t1": "ok", "t2": "ok"}, {"t1": "err_src", "t2": "ok"}):
@@ -192,6 +209,6 @@ def judge(ctx, scenarios, lines):
         m = by_id.get(scn, {}).get("model", {})
         tasks = m.get("tasks", [])
         bad = [t for t in tasks if t["outcome"] != "ok"]
-        sig = {"inv": inv, "scn": scn, "event": m.get("event"), "ntasks": len(tasks),
+        sig = {"inv": inv, "scn": scn, "event": m.get("event"), "ntasks": len(tasks), "ndead": sum(1 for t in tasks if t.get("dead")),
                "critical_failed": any(t["crit"] for t in bad), "noncritical_failed": any(not t["crit"] for t in bad)}
         ctx.add_violation(sig, replay_obj={"scenario": by_id.get(scn), "trace": [l for l in lines if l.get("scn") == scn]})
